@@ -47,12 +47,18 @@ class Ledger:
         self.fault_rate = fault_rate
         self.entries: list = []  # (name, args, kind, result)
         self.fault_pending = None
+        self.arg_misfit = False
 
     def call(self, name, args):
         ch = self.run.ch
         self.run.probe("generator_invoked")
         kind = "fit"
-        if self.fault_rate and ch.coin(self.fault_rate, "fault", "gen-fault"):
+        if self.arg_misfit and args and str(args[0]) == "b":
+            # a generator that only fits the rule for some argument values: an operator that moves
+            # the argument into the non-fitting region makes the *re-run* fail
+            kind = "misfit"
+            self.run.probe("argument_dependent_misfit")
+        elif self.fault_rate and ch.coin(self.fault_rate, "fault", "gen-fault"):
             kind = ch.pick(["misfit", "raise"], "fault", "gen-fault-kind")
         if kind == "raise":
             self.entries.append((name, tuple(str(a) for a in args), kind, None))
@@ -220,6 +226,7 @@ def run(run: Run) -> None:
     random.seed(ch.product_seed())
     fault_rate = cfg.get("gen_fault_rate", 0.05) if (spec.gen_fields and ch.coin(0.4, "fault", "gen-faulty-run")) else 0.0
     ledger = Ledger(run, spec, fault_rate)
+    ledger.arg_misfit = any(n.startswith("d_") for n in spec.gen_fields) and ch.coin(0.35, "fault", "arg-dependent-misfit")
     bridge.LEDGER = None
     ev = fresh_spec(text)  # the independent evaluator's spec object (built first, never fuzzed)
     ev_constraints = list(ev.constraints)
